@@ -99,7 +99,10 @@ def gen(rng, tier):
         wr = [i for i, s in enumerate(steps) if s["op"] in ("create", "update")]
         fault = {"step": rng.choice(wr), "kind": rng.choice(["fs.write", "fs.tmpname", "fs.open", "fs.close", "fs.read", "fs.unlink"]),
                  "nth": rng.choice([0, 0, 1, 2]), "mode": rng.choice(["error", "error", "crash"])}
-    return {"steps": steps, "fault": fault, "qseed": rng.getrandbits(32), "fault_profile": rng.random() < 0.1,
+    memory = fault is None and rng.random() < 0.15
+    if memory:
+        steps = [st for st in steps if st["op"] not in ("reopen", "restart")]
+    return {"steps": steps, "fault": fault, "qseed": rng.getrandbits(32), "memory": memory, "fault_profile": rng.random() < 0.1,
             "fault_seed": rng.getrandbits(32)}
 
 
@@ -226,7 +229,9 @@ def run(case):
             spec = G.source_spec(None, st["feats"], form=st["form"])
             req = {"op": k, "h": "h", "data": spec, "kw": {"merge_strategy": "error"}}
             if k == "create":
-                req["db"] = "a.db"
+                req["db"] = ":memory:" if case.get("memory") else "a.db"
+                if case.get("memory"):
+                    probes["memory_database"] = 1
             else:
                 req["kw"]["make_backup"] = False
             this_fault = fault and fault["step"] == si
@@ -254,7 +259,9 @@ def run(case):
             if not check_store(model, node, w, call, V, "after %s #%d" % (k, si), qrng):
                 break
             out["digests"].add(core.digest(sorted(model.rel)))
-        if alive and not V and node.alive:
+        if alive and not V and node.alive and case.get("memory"):
+            node.close()
+        elif alive and not V and node.alive:
             # iter_by_parent_childs: [parent] + all children
             r = call(node, {"op": "read", "h": "h", "m": "iter_by_parent_childs", "kw": {"featuretype": "gene"}})
             if r["ok"]:
@@ -270,7 +277,7 @@ def run(case):
             check_store(model, obs, w, call, V, "fresh process at end", qrng, deep=False)
             obs.close()
         out["stats"] = w.stats
-    if case.get("fault_profile") and not V and not fault:
+    if case.get("fault_profile") and not V and not fault and not case.get("memory"):
         # the same import+update history under source failures / sql errors / cancels / crashes inside the updates
         # (relaxed C10-style oracle): the graph law must hold in whatever state the store is left
         from checks import c10
